@@ -100,6 +100,7 @@ class Env:
         self.values = dict(values or {})       # slot -> number or Sym (overrides defaults)
         self.units = dict(units or {})         # slot -> unit string (C10)
         self._cache = parent._cache if parent is not None else {}
+        self.sources = parent.sources if parent is not None else {}   # slot -> Source (C13)
 
     def child(self, values=None, units=None, symbolic=None):
         e = Env(self.ctx, {**self.symbolic, **(symbolic or {})}, {**self.values, **(values or {})},
@@ -127,6 +128,9 @@ class Env:
 
     def sv(self, slot, default, unit, label=None):
         q = self.quantity(slot, default, unit)
+        src = getattr(self, "sources", {}).get(slot)
+        if src is not None:
+            return SourceValue(q, source=src)
         return SourceValue(q) if label is None else SourceValue(q, label=label)
 
 
